@@ -29,6 +29,11 @@ func (c fakeConfigger) GetConfig(prefix string) (*git.Config, error) {
 		switch {
 		case prefix == "":
 			cfg.Entries = append(cfg.Entries, git.ConfigEntry{Key: e.Key, Value: e.Value})
+		case strings.HasSuffix(prefix, "."):
+			// documented: a prefix ending in '.' matches whatever follows
+			if strings.HasPrefix(e.Key, prefix) {
+				cfg.Entries = append(cfg.Entries, git.ConfigEntry{Key: e.Key[len(prefix):], Value: e.Value})
+			}
 		case e.Key == prefix:
 			cfg.Entries = append(cfg.Entries, git.ConfigEntry{Key: "", Value: e.Value})
 		case strings.HasPrefix(e.Key, prefix+"."):
